@@ -163,6 +163,10 @@ def run_seed(seed, profile, tier, known, scratch, owners=None, wal=None):
     w = World(cfg, known)
     w.owners = owners
     gen = Gen(rng, cfg)
+    # which swarm configuration this run drew (evidence)
+    w.stats['swarm.focus' if cfg.get('focus') else 'swarm.broad'] += 1
+    for knob in ('habit', 'faults', 'vfam', 'alpha', 'fault_rate'):
+        w.stats['swarm.%s.%s' % (knob, cfg.get(knob))] += 1
     events = []
     viol = None
     signal = None
